@@ -2889,7 +2889,7 @@ func (bc *Blockchain) ApplyPolicyToTxSet(txes []*transaction.Transaction) []*tra
 		bc.defaultBlockWitness.Store(defaultWitness)
 	}
 	var (
-		b           = &block.Block{Header: block.Header{Script: defaultWitness.(transaction.Witness)}}
+		b           = &block.Block{Header: block.Header{Script: defaultWitness.(transaction.Witness), StateRootEnabled: bc.config.StateRootInHeader}}
 		blockSize   = uint32(b.GetExpectedBlockSizeWithoutTransactions(len(txes)))
 		blockSysFee int64
 	)
